@@ -99,6 +99,19 @@ func runChunkingMode() {
 				note("note case %s: padded stream not parsed by the harness parser: %v", name, pps.err)
 			}
 		}
+		if i%3 == 1 {
+			// the same stream with RESERVED BYTES after the two known bytes of the fixed header
+			// content (a later format revision may add some; the reader skips them) - under every split
+			extra := []int{1, 3, 6, 14, 40, 300}[r.Intn(6)]
+			ext := ps.extendedHeader(res.stream, extra)
+			eps := parseStream(ext)
+			if eps.err == nil && eps.totalRecords() == len(res.truths) && len(eps.frames) > 0 {
+				stats["extended-fixed-header-streams"]++
+				checkSplits(r, name+"-hdr"+fmt.Sprint(extra), root, o.String()+" hdr-extra="+fmt.Sprint(extra), ext, res.truths, eps.frames[0].end, eps.zstd)
+			} else {
+				note("note case %s: extended-header stream not parsed by the harness parser: %v", name, eps.err)
+			}
+		}
 		// every variant except dataerr splits the header region into several reads
 		note("nontrivial %x", fnv(name, hx(res.stream)))
 		if i%20 == 0 {
